@@ -82,7 +82,7 @@ class IgraphSpy:
     igraph.Graph, inherited from GraphBase) returns, before pyunicorn post-processes it"""
 
     def __init__(self, name):
-        self.name, self.edges, self.vcount = name, [], []
+        self.name, self.edges, self.vcount, self.calls = name, [], [], []
 
     def __enter__(self):
         import igraph
@@ -93,6 +93,7 @@ class IgraphSpy:
 
         def wrapper(*a, **k):
             g = orig(*a, **k)
+            self.calls.append((tuple(a), dict(k)))
             self.edges.append([tuple(map(int, e)) for e in g.get_edgelist()])
             self.vcount.append(int(g.vcount()))
             return g
@@ -105,6 +106,19 @@ class IgraphSpy:
         else:
             delattr(self.G, self.name)
         return False
+
+
+def igraph_call(call, names, defaults):
+    """positional arguments of a recorded igraph call mapped to their names, default-valued options
+    dropped (so that `Erdos_Renyi(n, m=L)` and `Erdos_Renyi(n=n, m=L, directed=False)` are the same call)"""
+    a, k = call
+    d = dict(zip(names, a))
+    d.update(k)
+    return {k_: v_ for k_, v_ in d.items() if not (k_ in defaults and v_ == defaults[k_])}
+
+
+ER_NAMES, ER_DEFAULTS = ("n", "p", "m", "directed", "loops"), {"directed": False, "loops": False}
+WS_NAMES, WS_DEFAULTS = ("dim", "size", "nei", "p", "loops", "multiple"), {"loops": False, "multiple": False}
 
 
 class PairStream:
@@ -341,10 +355,13 @@ def run(ctx):
                 "non-trivial = at least one rewiring / link placement actually happened "
                 "(generators: at least one link)")
     ctx.trusted = common.DEFAULT_TRUSTED + [
-        "igraph generators and Graph.rewire (ErdosRenyi, Configuration, WattsStrogatz, BarabasiAlbert_igraph, "
-        "randomly_rewire): not modelled, their documented invariants are checked on outputs only",
-        "float32 arithmetic of the rewiring conditions is exact on the generated data "
-        "(distances and tolerances are multiples of 1/4 below 2^10)",
+        "igraph generators and Graph.rewire (Erdos_Renyi, Degree_Sequence, Watts_Strogatz, Barabasi, rewire): "
+        "trusted; the contracts the theorems use (simple graph with the requested number of links / incidence "
+        "counts) are checked on every call, pyunicorn's part (dispatch, simplify, adjacency read-out, "
+        "set_edge_list) is modelled and proved",
+        "the C compiler evaluates `a - b` on float operands as one IEEE binary32 subtraction and numpy `u * E` "
+        "as one binary64 multiplication (compared on every run with rnd32 / rnd64, which are proved to be "
+        "round-to-nearest-even)",
     ]
     ctx.proofs()
 
@@ -1421,15 +1438,27 @@ def run(ctx):
         with contextlib.redirect_stdout(io.StringIO()):
             return f(*a, **k)
 
+    def gen_call(name, f, **kw):
+        """a generator call inside "defined": an exception of the real code is a reported failure, not a
+        crash of the harness"""
+        try:
+            return np.asarray(quiet(f, **kw))
+        except Exception as e:  # noqa
+            ctx.fail({"kind": "model", "generator": name, "invariant": "raises", "error": type(e).__name__},
+                     f"{name}({kw}) raised {e!r}", {"call": name, "kwargs": {k_: (v_ if isinstance(v_, (int, float)) else float(v_)) for k_, v_ in kw.items()}})
+            return None
+
     reqs, impl = [], []
     for c in range(40 * scale):
         N = rng.randrange(2, 14) if rng.random() < 0.9 else rng.randrange(14, 60)
         maxl = N * (N - 1) // 2
         L = rng.choice([0, maxl, rng.randrange(0, maxl + 1)])
         with IgraphSpy("Erdos_Renyi") as spy:
-            A = np.asarray(quiet(Network.ErdosRenyi, n_nodes=N, n_links=L))
-        ctx.case(("er", N, L, A.tobytes().hex()), L > 0)
+            A = gen_call("ErdosRenyi", Network.ErdosRenyi, n_nodes=N, n_links=L)
         ctx.count("generator:ErdosRenyi(n_links)")
+        if A is None:
+            continue
+        ctx.case(("er", N, L, A.tobytes().hex()), L > 0)
         # round 5: igraph's contract (simple graph on N nodes with exactly L links) is checked on every
         # call; the model reads the adjacency matrix out of the graph igraph returned
         # (theorems generator_adjacency_spec / erdosRenyi_spec)
@@ -1440,6 +1469,10 @@ def run(ctx):
                 ctx.count("ErdosRenyi:igraph-contract-broken")
             reqs.append(f"edges {N} {enc_mat(es) if es else '-'}")
             impl.append(enc_mat(A.reshape(N, N)))
+            # the arguments handed to igraph: exactly (n=n_nodes, m=n_links)
+            reqs.append("ercall 0 1")
+            impl.append("m" if igraph_call(spy.calls[-1], ER_NAMES, ER_DEFAULTS) == {"n": N, "m": L}
+                        else f"other:{spy.calls[-1]}")
         else:
             ctx.count("ErdosRenyi:igraph-call-not-observed")
         if not simple_undirected(A) or int(A.sum()) // 2 != L:
@@ -1448,14 +1481,19 @@ def run(ctx):
                      {"n_nodes": N, "n_links": L, "A": A.tolist()})
         p = rng.choice([0.0, 0.3, 1.0])
         with IgraphSpy("Erdos_Renyi") as spy:
-            A = np.asarray(quiet(Network.ErdosRenyi, n_nodes=N, link_probability=p))
+            A = gen_call("ErdosRenyi", Network.ErdosRenyi, n_nodes=N, link_probability=p)
         ctx.count("generator:ErdosRenyi(p)")
+        if A is None:
+            continue
         if spy.edges:
             es = spy.edges[-1]
             if spy.vcount[-1] != N or any(a_ == b_ for a_, b_ in es) or len({frozenset(e) for e in es}) != len(es):
                 ctx.count("ErdosRenyi:igraph-contract-broken")
             reqs.append(f"edges {N} {enc_mat(es) if es else '-'}")
             impl.append(enc_mat(A.reshape(N, N)))
+            reqs.append("ercall 1 0")
+            impl.append("p" if igraph_call(spy.calls[-1], ER_NAMES, ER_DEFAULTS) == {"n": N, "p": p}
+                        else f"other:{spy.calls[-1]}")
             if p in (0.0, 1.0) and int(A.sum()) // 2 != (0 if p == 0.0 else maxl):
                 ctx.fail({"kind": "model", "generator": "ErdosRenyi", "invariant": "p-extreme"},
                          f"ErdosRenyi(n_nodes={N}, link_probability={p}) gave {int(A.sum()) // 2} links",
@@ -1550,8 +1588,11 @@ def run(ctx):
         k = rng.randrange(1, 3)
         Nw = rng.randrange(2 * k + 2, 16)
         with IgraphSpy("Watts_Strogatz") as spy:
-            A = np.asarray(quiet(Network.WattsStrogatz, N=Nw, k=k, p=rng.choice([0.0, 0.2, 1.0])))
+            pw = rng.choice([0.0, 0.2, 1.0])
+            A = gen_call("WattsStrogatz", Network.WattsStrogatz, N=Nw, k=k, p=pw)
         ctx.count("generator:WattsStrogatz")
+        if A is None:
+            continue
         if spy.edges:
             es = spy.edges[-1]
             if spy.vcount[-1] != Nw or len(es) != Nw * k or any(a_ == b_ for a_, b_ in es) \
@@ -1559,6 +1600,9 @@ def run(ctx):
                 ctx.count("WattsStrogatz:igraph-contract-broken")
             reqs.append(f"edges {Nw} {enc_mat(es) if es else '-'}")
             impl.append(enc_mat(A.reshape(Nw, Nw)))
+            # the oracle below judges the result; a different way of calling igraph is only counted
+            if igraph_call(spy.calls[-1], WS_NAMES, WS_DEFAULTS) != {"dim": 1, "size": Nw, "nei": k, "p": pw}:
+                ctx.count("WattsStrogatz:unexpected igraph arguments")
         else:
             ctx.count("WattsStrogatz:igraph-call-not-observed")
         if not simple_undirected(A) or int(A.sum()) // 2 != Nw * k:
